@@ -1,4 +1,4 @@
-import OntVerif.Proofs.MerkleF
+import OntVerif.Proofs.Merkle
 /-!
 # C27 — Cross-chain merkle paths prove exactly the included values
 
@@ -40,6 +40,44 @@ theorem C27_complete [DecidableEq Hash] (H0 : Bytes → Hash) (H1 : Hash → Has
     rfl
   · simp only [proveSteps, decide_eq_true_eq]
     exact proveFold_complete H1 He hashes.length hashes i (H0 data) rfl hget
+
+/-- **Completeness at byte level.**  With `enc` the 32 bytes of a hash and `dec` any reader with `dec (enc h) = h`: for every
+value whose leaf hash is in the list, within the 1 MiB limit, the **bytes** returned by `MerkleLeafPath(value, hashes)`
+(`WriteVarBytes(value)`, then flag byte and sibling hash per step) are parsed by `MerkleProve`'s reader — `NextVarBytes`,
+then `remaining/32` iterations of `NextByte`/`NextHash` — back to exactly the value and the steps (the path has at most 15
+steps, below the 32 at which the loop bound overshoots), and `MerkleProve(path, HashFullTreeWithLeafHash(hashes))` returns
+the value. -/
+theorem C27_complete_bytes [DecidableEq Hash] (H0 : Bytes → Hash) (H1 : Hash → Hash → Hash) (He : Hash)
+    (enc : Hash → Bytes) (dec : Bytes → Hash) (henc : ∀ h, (enc h).length = 32) (hdec : ∀ h, dec (enc h) = h)
+    (data : Bytes) (hashes : List Hash) (hmem : H0 data ∈ hashes)
+    (hsz : hashes.length * 33 + data.length + 8 ≤ maxSize) :
+    ∃ path, merkleLeafPathBytes H0 H1 enc data hashes = .ok (some path) ∧
+      merkleProve H0 H1 dec path (mth H1 He hashes) = .ok data := by
+  obtain ⟨i, hget, hpath, hlen⟩ := merkleLeafPath_spec H0 H1 He data hashes hmem hsz
+  refine ⟨pathBytes enc data (stepsSpec H1 He i hashes), by simp [merkleLeafPathBytes, hpath], ?_⟩
+  have hbytes : (pathBytes enc data (stepsSpec H1 He i hashes)).length < OntVerif.Model.Codec.two64 := by
+    unfold pathBytes
+    rw [List.length_append, flatMap_steps_length enc henc]
+    have h1 : (OntVerif.Model.Codec.writeVarBytes data).length ≤ 9 + data.length := by
+      simp only [OntVerif.Model.Codec.writeVarBytes, List.length_append, OntVerif.Proofs.Codec.writeVarUint_length]
+      have := getVarUintSize_le data.length
+      omega
+    unfold maxSize at hsz
+    unfold OntVerif.Model.Codec.two64
+    omega
+  unfold merkleProve
+  rw [parsePath_pathBytes enc henc data _ (by omega) hbytes]
+  simp only [List.map_map]
+  have hmap : (stepsSpec H1 He i hashes).map ((fun x => (x.1, dec x.2)) ∘ fun s => (s.1, enc s.2)) = stepsSpec H1 He i hashes := by
+    conv => rhs; rw [← List.map_id (stepsSpec H1 He i hashes)]
+    apply List.map_congr_left
+    intro s _
+    simp [hdec]
+  have hfold := proveFold_complete H1 He hashes.length hashes i (H0 data) rfl hget
+  have hfun : (fun (x : UInt8 × Bytes) => match x with | (f, v) => (f, dec v)) = (fun x => (x.1, dec x.2)) := by
+    funext x; rfl
+  rw [hfun, hmap, hfold]
+  simp
 
 /-- **Soundness (collision-extraction form).**  If a path (any steps, any flags) folds from `HashLeaf(value)` to the tree
 hash of a non-empty list whose elements are leaf hashes (`H0` images — `CrossHashes` are `HashLeaf(data)`), then
@@ -85,6 +123,10 @@ theorem C27_range_hypothesis_needed :
       T.leaf value ∉ L ∧ ¬ Collision T.leaf T.node :=
   ⟨[T.node (T.leaf [7]) (T.leaf [8]), T.leaf [9]], [7], [(1, T.leaf [8]), (1, T.leaf [9])],
     by decide, by decide, by decide, no_collision_T⟩
+
+/-- byte level, non-vacuity of the 32-step bound: a path with 32 steps does NOT parse back (the loop runs 33 times) -/
+example : parsePath (pathBytes (fun _ : Nat => List.replicate 32 (0 : UInt8)) [7] (List.replicate 32 (1, 0))) = .error .readByte := by
+  rfl
 
 example : merkleLeafPath T.leaf T.node [1] [T.leaf [0], T.leaf [1], T.leaf [2]]
     = .ok (some ([1], [(0, T.leaf [0]), (1, T.leaf [2])])) := by rfl
